@@ -1118,6 +1118,45 @@ func checkSeriesAxisSelectors(p *Program, r *Report, only func(*arrayType) bool)
 			}
 		}
 	}
+	// second clause: a 1-D run that is delegated to the n-D run write names its axis by the extents
+	for _, at := range arrayTypes(p) {
+		if !only(at) {
+			continue
+		}
+		fn := at.own("Apply1")
+		if fn == nil || len(fn.Blocks) == 0 {
+			continue
+		}
+		tname := at.rel + "." + at.named.Obj().Name()
+		for _, c := range callsIn(fn) {
+			if callName(c.Common()) != "Apply" || len(callArgs(c.Common())) < 4 {
+				continue
+			}
+			dim := callArgs(c.Common())[1]
+			if _, isC := constInt(origin1OrSelf(dim)); isC {
+				continue
+			}
+			key := fmt.Sprintf("%s:axis-selector:Apply1-delegates", tname)
+			if len(selectorsIn(fn)) > 0 {
+				r.OK("R01.8", fmt.Sprintf("%s: Apply1 hands Apply an axis chosen by the extents (judged with the other selectors)", tname))
+				continue
+			}
+			// the axis may come from a selector helper of the type (`nd.seriesAxis()`)
+			viaSelector := false
+			for _, o := range origins(dim) {
+				if hc, ok := o.(*ssa.Call); ok {
+					if h := hc.Common().StaticCallee(); h != nil && len(selectorsIn(h)) > 0 {
+						viaSelector = true
+					}
+				}
+			}
+			if viaSelector {
+				r.OK("R01.8", fmt.Sprintf("%s: Apply1 hands Apply the axis a selector of the type names", tname))
+			} else {
+				r.Fail("R01.8", key, p.Pos(c.Pos()), "Apply1 writes its run through Apply along an axis that is not chosen by the extents (no loop testing Dims[i] > 1 names it): the element accessors place a 1-D position on the axis that is longer than one, so a run that picks its axis any other way (by comparing index entries with the start position, …) advances along another axis for some positions and writes elements outside the series — and outside the caller's buffer")
+			}
+		}
+	}
 	r.Floor("R01.8", "array types with a series-axis selector", n, 4)
 }
 
